@@ -250,6 +250,7 @@ static ares_socket_t s_socket(int domain, int type, int, void *ud)
 {
   World *w = (World *)ud;
   if (take_fault(w, FS_SOCKET)) {
+    w->net_fails.push_back({ ++w->seq, -1, -1 });
     w->log("socket() -> EMFILE");
     errno = EMFILE;
     return ARES_SOCKET_BAD;
@@ -338,8 +339,12 @@ static int s_connect(ares_socket_t fd, const struct sockaddr *sa, ares_socklen_t
   s->server         = server_of_sa(w, sa);
   s->connect_called = true;
   s->local_variant  = w->src_variant; // the kernel picks the source address when the socket is connected
+  s->connect_seq = ++w->seq;
+  memcpy(s->ref_fail_at_connect, w->ref_fail, sizeof w->ref_fail);
+  memcpy(s->last_fail_at_connect, w->ref_last_fail_us, sizeof w->ref_last_fail_us);
   if (take_fault(w, FS_CONNECT)) {
     w->log(fmt("connect(%d,srv%d) -> ECONNREFUSED", fd, s->server));
+    w->net_fails.push_back({ ++w->seq, s->server, fd });
     errno = ECONNREFUSED;
     return -1;
   }
@@ -373,6 +378,7 @@ static ares_ssize_t s_recvfrom(ares_socket_t fd, void *buf, size_t len, int, str
     return -1;
   }
   if (take_fault(w, FS_RECV_RESET)) {
+    w->net_fails.push_back({ ++w->seq, s->server, fd });
     w->log(fmt("recv(%d) -> ECONNRESET", fd));
     errno = ECONNRESET;
     return -1;
@@ -405,6 +411,10 @@ static ares_ssize_t s_recvfrom(ares_socket_t fd, void *buf, size_t len, int, str
     return (ares_ssize_t)n;
   }
   if (s->reset) {
+    if (!s->conn_fail_logged) {
+      s->conn_fail_logged = true;
+      w->net_fails.push_back({ ++w->seq, s->server, fd });
+    }
     w->log(fmt("recv(%d) -> ECONNRESET", fd));
     errno = ECONNRESET;
     return -1;
@@ -412,6 +422,10 @@ static ares_ssize_t s_recvfrom(ares_socket_t fd, void *buf, size_t len, int, str
   size_t avail = s->instream.size() - s->inpos;
   if (avail == 0) {
     if (s->peer_closed) {
+      if (!s->conn_fail_logged) {
+        s->conn_fail_logged = true;
+        w->net_fails.push_back({ ++w->seq, s->server, fd });
+      }
       w->log(fmt("recv(%d) -> 0 (peer closed)", fd));
       return 0;
     }
@@ -441,6 +455,7 @@ static ares_ssize_t s_sendto(ares_socket_t fd, const void *buf, size_t len, int,
   }
   if (take_fault(w, FS_SEND_REFUSED)) {
     w->log(fmt("send(%d) -> ECONNREFUSED", fd));
+    w->net_fails.push_back({ ++w->seq, s->server, fd });
     errno = ECONNREFUSED;
     return -1;
   }
@@ -540,8 +555,15 @@ void World::record_tx(VSock &s, const Bytes &msg)
   t.t_us   = now_us;
   t.src_variant = s.local_variant;
   t.seq         = ++seq;
+  t.decision_seq = (s.tcp && s.ntx == 0) ? s.connect_seq : t.seq;
   memcpy(t.ref_fail, ref_fail, sizeof ref_fail);
   memcpy(t.last_fail_us, ref_last_fail_us, sizeof ref_last_fail_us);
+  if (s.tcp && s.ntx == 0) {
+    // the first frame on a TCP connection reaches the wire only once the connection is established: the server was
+    // chosen when the connection was opened
+    memcpy(t.ref_fail, s.ref_fail_at_connect, sizeof t.ref_fail);
+    memcpy(t.last_fail_us, s.last_fail_at_connect, sizeof t.last_fail_us);
+  }
   t.ev_index   = in_closure ? -1 : cur_ev;
   t.in_timer   = in_timer;
   t.in_closure = in_closure;
@@ -559,12 +581,14 @@ void World::record_tx(VSock &s, const Bytes &msg)
 void World::on_tcp_output(VSock &s)
 {
   // extract complete frames
+  int in_this_call = 0;
   while (s.outstream.size() - s.outparsed >= 2) {
     size_t l = (size_t)(s.outstream[s.outparsed] << 8 | s.outstream[s.outparsed + 1]);
     if (s.outstream.size() - s.outparsed - 2 < l) break;
     Bytes m(s.outstream.begin() + (long)s.outparsed + 2, s.outstream.begin() + (long)(s.outparsed + 2 + l));
     s.outparsed += 2 + l;
     record_tx(s, m);
+    if (in_this_call++ > 0) txs.back().batched = true;
   }
 }
 
@@ -1412,6 +1436,7 @@ Bytes World::build_reply(const Transmission &tx, int kind, Packet &pk)
     case RK_FORMERR_OPT: r.rcode = vdns::RC_FORMERR; break;
     case RK_TC:
       r.tc = true;
+      add_data(100, qq.qtype, owner); // a truncated answer usually still carries what fitted: gives it a provenance marker
       break;
     case RK_CK_NONE: add_data(100, qq.qtype, owner); break;
     case RK_CK_VALID:
@@ -1642,6 +1667,8 @@ void World::apply(const Ev &e)
       break;
   }
   pol_in.clear();
+  if (cfg->eager_io && ch && !destroyed)
+    for (int k = 0; k < 6 && !ready_fds(false).empty(); k++) do_io(false);
 }
 
 void World::closure()
